@@ -32,11 +32,14 @@ PROPS["C01"] = {
     "assumptions": ["the ground closure on a pool of size >= 3m coincides with the true congruence on the universe (DESIGN §3.4); disagreements are re-decided at |P|+2 before being reported"],
     "quick": [
         {"variant": "default", "cases": 6000, "params": {"profile": "mix"}, "timeout": 600},
+        {"variant": "default", "cases": 1500, "params": {"profile": "m4"}, "timeout": 600},
+        {"variant": "default", "cases": 1500, "params": {"profile": "symred"}, "timeout": 600},
         {"variant": "explanations", "cases": 1500, "params": {"profile": "mix"}, "timeout": 600},
     ],
     "thorough": [
         {"variant": "default", "cases": 400000, "params": {"profile": "mix"}, "timeout": 3000},
-        {"variant": "default", "cases": 6000, "params": {"profile": "m4"}, "timeout": 3000},
+        {"variant": "default", "cases": 60000, "params": {"profile": "m4"}, "timeout": 3000},
+        {"variant": "default", "cases": 40000, "params": {"profile": "symred"}, "timeout": 3000},
         {"variant": "checks", "cases": 100000, "params": {"profile": "mix"}, "timeout": 3000},
         {"variant": "explanations", "cases": 60000, "params": {"profile": "mix"}, "timeout": 3000},
     ],
@@ -48,11 +51,14 @@ PROPS["C02"] = {
     "assumptions": ["equalities derived by the ground closure are implied at every pool size, so an 'oracle equal, e-graph unequal' verdict cannot be a false alarm"],
     "quick": [
         {"variant": "default", "cases": 6000, "params": {"profile": "mix"}, "timeout": 600},
+        {"variant": "default", "cases": 1500, "params": {"profile": "m4"}, "timeout": 600},
+        {"variant": "default", "cases": 1500, "params": {"profile": "symred"}, "timeout": 600},
         {"variant": "explanations", "cases": 1500, "params": {"profile": "mix"}, "timeout": 600},
     ],
     "thorough": [
         {"variant": "default", "cases": 400000, "params": {"profile": "mix"}, "timeout": 3000},
-        {"variant": "default", "cases": 6000, "params": {"profile": "m4"}, "timeout": 3000},
+        {"variant": "default", "cases": 60000, "params": {"profile": "m4"}, "timeout": 3000},
+        {"variant": "default", "cases": 40000, "params": {"profile": "symred"}, "timeout": 3000},
         {"variant": "checks", "cases": 100000, "params": {"profile": "mix"}, "timeout": 3000},
         {"variant": "explanations", "cases": 60000, "params": {"profile": "mix"}, "timeout": 3000},
     ],
@@ -189,3 +195,36 @@ PROPS["C13"] = {
 PROPS["C17"]["quick"].append({"variant": "default", "cases": 1200, "params": {"lazy": 1}, "worker_prop": "C11", "timeout": 600})
 PROPS["C17"]["thorough"].append({"variant": "default", "cases": 100000, "params": {"lazy": 1}, "worker_prop": "C11", "timeout": 3000})
 PROPS["C17"]["floors"]["any"].update({"naming_lazy_fresh_like": 200, "naming_lazy_numeric": 200})
+
+PROPS["C06"] = {
+    "rule": "cases: an e-graph reached by a generated add/union history over LSym (self-referential unions give cyclic classes, redundancy unions give best nodes with redundant slots, "
+            "permuted copies give symmetric classes), half of them followed by 1-2 rewrite iterations; queries = every live class under the identity and under a random renaming of its "
+            "arguments plus all (possibly merged) old handles; three cost functions (AstSize, depth-weighted 1+2*children, per-operator weights). Per query: get_best_cost == own Bellman-Ford "
+            "minimum over eg.enodes, cost_rec(result) == best cost, lookup_rec_expr(result) equals the query, free slots of the result are arguments of the query or never-seen slots, no panic, "
+            "extraction succeeds iff the own fix-point finds a finite term. Non-trivial = distinct history whose e-graph has a cyclic class or a class with e-nodes of different cost.",
+    "assumptions": ["the own least fix-point uses eg.enodes and the same cost function; 'new slot' = its printed name occurs nowhere in the e-graph or the user alphabet before extraction"],
+    "quick": [{"variant": "default", "cases": 1500, "timeout": 600}, {"variant": "checks", "cases": 500, "timeout": 600}],
+    "thorough": [{"variant": "default", "cases": 200000, "timeout": 3000}, {"variant": "checks", "cases": 30000, "timeout": 3000}, {"variant": "explanations", "cases": 10000, "timeout": 3000}],
+    "floors": {"any": {"extractions": 30000, "egraphs_with_cyclic_class": 200, "enodes_with_redundant_slots": 500, "queries_with_cost_choice": 5000}},
+}
+PROPS["C05"] = {
+    "rule": "cases: an e-graph reached by a generated history (half with a rewrite iteration), 6 single patterns (abstractions of inserted terms with shared variables for equal subterms, and blind random "
+            "patterns with binders and repeated slots) and 3 multi-patterns (flattened inserted terms and random equation lists). Every returned substitution (first 300/200 per pattern) must bind all "
+            "variables, the pattern instantiated bottom-up with eg.lookup only must be represented, each multi-pattern equation must hold between the bound classes, and a fingerprint (progress, "
+            "nodes, ids, class slots, equality matrix of all handles) must be unchanged by matching. Non-trivial = distinct history with >=1 validated match of a pattern with >=2 nodes / >=2 equations.",
+    "assumptions": ["instantiation uses only EGraph::lookup, so 'represented without inserting' is decided by the crate's own lookup, cross-checked by C09"],
+    "quick": [{"variant": "default", "cases": 2000, "timeout": 600}],
+    "thorough": [{"variant": "default", "cases": 300000, "timeout": 3000}, {"variant": "checks", "cases": 30000, "timeout": 3000}],
+    "floors": {"any": {"matches_validated": 10000, "multimatches_validated": 2000, "patterns_with_matches": 3000, "multipatterns_with_matches": 1000}},
+}
+PROPS["C04"] = {
+    "rule": "cases: a random left pattern over LSym (repeated variables, free and bound slots, variables under binders) and a right pattern built from its top-level variables, free slots and verbatim "
+            "binder blocks; a planted instance (variables -> small terms that may mention the bound slots in scope, slots -> distinct names), optional distractors, optionally a symmetric child "
+            "class (f(a,b)=f(b,a)) and optionally a balanced prior union (the instance is inserted with a leaf u replaced by u' and u = u' is asserted, so the instance is present only up to "
+            "equality). Scope guards on the real e-graph: no class with a redundant slot, instance represented beforehand, binders bound once. After one apply_rewrites the right-hand instance "
+            "must be represented and equal to the planted one. Non-trivial = distinct planting with a repeated variable, a symmetric class or presence only through a union.",
+    "assumptions": ["the planted substitution is known by construction; out-of-scope plantings are counted as skipped, not judged"],
+    "quick": [{"variant": "default", "cases": 4000, "timeout": 600}],
+    "thorough": [{"variant": "default", "cases": 600000, "timeout": 3000}, {"variant": "checks", "cases": 60000, "timeout": 3000}],
+    "floors": {"any": {"plantings_judged": 3000, "plantings_with_repeated_variable": 200, "plantings_present_only_through_union": 800, "plantings_with_symmetric_class": 800}},
+}
